@@ -1483,3 +1483,40 @@ VARIANTS['C03'] += [
       [(MP4, "                self._invalidate()\n                self.trigger_change()\n        object.__setattr__(self, name, value)\n", "                self.trigger_change()\n                self._invalidate()\n        object.__setattr__(self, name, value)\n")],
       None),
 ]
+
+# --- twelfth wave: slips in collaborators of the anchored functions
+VARIANTS['C20'] += [
+    V('explicit window size stored only when it is true',
+      [(BR, "        self.size = size\n        self.max_buffers = max_buffers\n",
+        "        self.size = None\n        if size:\n            self.size = size\n        self.max_buffers = max_buffers\n")],
+      'R20.6', '__init__'),
+    V('neutral: explicit window size stored under an `is not None` test',
+      [(BR, "        self.size = size\n        self.max_buffers = max_buffers\n",
+        "        self.size = None\n        if size is not None:\n            self.size = size\n        self.max_buffers = max_buffers\n")],
+      None),
+]
+
+VSTL = 'dashlive/mpeg/dash/validator/segment_timeline.py'
+VARIANTS['C18'] += [
+    V('S@t that does not follow on is replaced by the running start',
+      [(VSTL, "            start = int(t, 10) if t is not None else start\n",
+        "            if t is not None:\n                t = int(t, 10)\n                if start is not None and t != start:\n"
+        "                    t = start\n                start = t\n")],
+      'R18.11', '__init__'),
+    V('neutral: S@t parsed into a local before it becomes the running start',
+      [(VSTL, "            start = int(t, 10) if t is not None else start\n",
+        "            if t is not None:\n                t_value = int(t, 10)\n                start = t_value\n")],
+      None),
+]
+
+DRMOPT = 'dashlive/server/options/drm_options.py'
+for _p, _r in (('C10', 'R10.5'), ('C07', 'R07.5'), ('C11', 'R11.8')):
+    VARIANTS[_p] += [
+        V('location list of one DRM item decided by a dash anywhere in the option',
+          [(DRMOPT, "    for item in value.split(','):\n        if '-' in item:\n", "    for item in value.split(','):\n        if '-' in value:\n")],
+          _r, '_drm_selection_from_string'),
+        V('neutral: DRM item split first, location list decided by the number of pieces',
+          [(DRMOPT, "        if '-' in item:\n            parts = item.split('-')\n            drm = parts[0]\n",
+            "        parts = item.split('-')\n        if len(parts) > 1:\n            drm = parts[0]\n")],
+          None),
+    ]
